@@ -213,6 +213,8 @@ _CORNERS = [
     "len('a  b')", "'a\tb' == 'a b'", "len('  ') + len('\u00a0')", "'x   y' + 'z'", "max('a  b', 'a b')",
     "0.1 + (0.2 + 0.3)", "(0.1 + 0.2) + 0.3", "0.1 + 0.2 + 0.3", "1e16 + (1.0 + 1.0)", "1e308 * (10 * 0.01)", "1e308 * 10 * 0.01", "0.1 * (0.2 * 0.3)", "1.1 * (1.1 * 1.1)",
     "1e16 + 1.0 - 1e16", "1e16 - 1e16 + 1.0", "1 - (2 - 3)", "8 / (4 / 2)", "2 ** (3 ** 2)", "2 ** 3 ** 2", "7 - 2 - 1", "7 - (2 - 1)", "(-0.0) + 0.0", "0.0 + (-0.0)", "atan2((-0.0), (-1))",
+    "pi()", "e(1, 2)", "1 + tau(0)", "inf() > 3", "pi(x=3)", "max(pi(), 1)", "int('11', base=2, base=10)", "round(2.567, ndigits=1, ndigits=2)", "max([1, 2], [0, 5], key=len, key=sum)",
+    "factorial(n=5)", "factorial(x=5)", "round(number=2.567, ndigits=1)", "sum(iterable=[1, 2])", "sum([1, 2], start=1)", "sum([[1]], start=[])", "abs(x=-1)", "sqrt(x=4)", "max(1, 2, default=0)", "int(x='7')", "float(x=1)",
     "abs(-3) + abs(3.5)", "bool([])", "bool([0])", "int(2.9)", "float(3)", "pow(2, 3)", "factorial(5) / factorial(3)", "sqrt(16) + pi",
 ]
 
@@ -314,7 +316,8 @@ def judge(case):
         if n_ops >= 2 or has_call:
             out.nontrivial = True
         if not py_ok:
-            out.fail("success-where-python-raises", "engine returned %s but Python raises %s" % (_short(r.atp.value), py_err), d)
+            sig = "success-where-python-rejects-the-expression" if py_err.startswith("SyntaxError") else "success-where-python-raises"
+            out.fail(sig, "engine returned %s but Python raises %s" % (_short(r.atp.value), py_err), d)
             return out
         want = bool(py_val) if logic else py_val
         if not _eq(r.atp.value, want):
